@@ -575,7 +575,10 @@ class Gen:
             return False
         e = self.pick(c, s)
         bits = "".join(r.choice("01") for _ in range(12))
-        self.add("decode", {"target": e["id"], "bits": bits, "counts": [r.randint(1, 50) for _ in range(3)]}, [e["id"]], s, "none")
+        a = {"target": e["id"], "bits": bits, "counts": [r.randint(1, 50) for _ in range(3)]}
+        if e["rk"] == "qf" and e["meta"].get("argsig"):
+            a["enc"] = [gen_value(t, r) for _, t in e["meta"]["argsig"]]  # encode_input(*values): the read-only way in
+        self.add("decode", a, [e["id"]], s, "none")
         return True
 
     def b_repr(self, s):
@@ -1266,7 +1269,13 @@ def do_op(op, objs, tmpdir):
             outs.append(b)
         counts = dict(zip(outs, a["counts"]))
         dec = o.decode_counts(counts)
-        return {"kind": "decoded", "n": n, "out": sorted([repr(kx), vx] for kx, vx in dec.items()), "one": repr(o.decode_output(outs[0])), "iq": [list(o.input_qubits) if hasattr(o, "args") else None, list(o.output_qubits)]}
+        res = {"kind": "decoded", "n": n, "out": sorted([repr(kx), vx] for kx, vx in dec.items()), "one": repr(o.decode_output(outs[0])), "iq": [list(o.input_qubits) if hasattr(o, "args") else None, list(o.output_qubits)]}
+        if "enc" in a and hasattr(o, "encode_input"):
+            try:
+                res["enc"] = repr(o.encode_input(*[to_py(v) for v in a["enc"]]))
+            except Exception as e:
+                res["enc"] = "raises:" + type(e).__name__
+        return res
     if k == "recompile":
         import fingerprint as F
 
